@@ -32,4 +32,24 @@ FindRun(pats, K, ci, h, s, e, an, earlyflag) ==
               ELSE RunLoop(P, K, ci, h, s, e, an, early, Root, s, m0)
          ELSE RunLoop(P, K, ci, h, s, e, an, early, Root, s, None)
 
+(* The same run with the C19 work counters: <<transitions, failure steps>>.  *)
+RECURSIVE CostLoop(_, _, _, _, _, _, _, _, _, _, _, _)
+CostLoop(P, K, ci, h, s, e, an, early, sid, at, tr, fl) ==
+    IF at >= e THEN <<tr, fl>>
+    ELSE LET b == Feed(h[at + 1], ci)
+             n == Nxt(P, K, an, sid, b)
+             f == IF an THEN 0 ELSE FailSteps(P, K, sid, b) IN
+         IF n = DEAD THEN <<tr + 1, fl + f>>
+         ELSE IF IsMatchState(P, K, n) /\ early
+                 /\ ~(an /\ GetMatch(P, K, n, 1, at + 1)[2] > s)
+         THEN <<tr + 1, fl + f>>
+         ELSE CostLoop(P, K, ci, h, s, e, an, early, n, at + 1, tr + 1, fl + f)
+
+FindCost(pats, K, ci, h, s, e, an, earlyflag) ==
+    IF s > e THEN <<0, 0>>
+    ELSE LET P == IF ci THEN FoldAll(pats) ELSE pats
+             early == K = "std" \/ earlyflag IN
+         IF IsMatchState(P, K, Root) /\ early THEN <<0, 0>>
+         ELSE CostLoop(P, K, ci, h, s, e, an, early, Root, s, 0, 0)
+
 =============================================================================
